@@ -37,6 +37,7 @@ KEY = {'nillable': 0, 'nullable': 0, 'min_occurs': 1, 'max_occurs': 2, 'default'
        'exc_table': 18, 'exc_db': 19, '_explicit_type_name': 20, 'type_name': 21, 'min_bound': 22,
        'max_bound': 23, 'read_only': 24, 'validate_freq': 25, 'not_wrapped': 26, 'exc_interface': 27,
        'format': 28, 'empty_is_none': 29, 'wsdl_part_name': 30, 'encoding': 31, 'prot': 32, 'protocol': 33, 'p': 34,
+       'primary_key': 35, 'pk': 36, 'col:primary_key': 37, 'autoincrement': 38, 'onupdate': 39, 'server_default': 40,
        '_foo': -1, '_variants': -2}
 # keys observed by Model.obs_keys, with the Python name they are read through
 OBS = [(0, 'nillable'), (1, 'min_occurs'), (2, 'max_occurs'), (3, 'default'), (4, 'ge'), (5, 'gt'), (6, 'le'),
@@ -44,7 +45,10 @@ OBS = [(0, 'nillable'), (1, 'min_occurs'), (2, 'max_occurs'), (3, 'default'), (4
        (13, 'exc'), (14, 'sub_name'), (15, 'sub_ns'), (16, 'total_digits'), (17, 'fraction_digits'),
        (18, 'exc_table'), (19, 'exc_db'), (20, '_explicit_type_name'), (22, 'min_bound'), (23, 'max_bound'),
        (24, 'read_only'), (25, 'validate_freq'), (26, 'not_wrapped'), (27, 'exc_interface'), (28, 'format'),
-       (29, 'empty_is_none'), (30, 'wsdl_part_name'), (31, 'encoding'), (32, 'prot')]
+       (29, 'empty_is_none'), (30, 'wsdl_part_name'), (31, 'encoding'), (32, 'prot'),
+       # Attributes.primary_key, and the entries of the keyword dictionary of Attributes.sqla_column_args (what
+       # sqlalchemy.Column is called with): a derivative gets a deep copy of its original's
+       (35, 'primary_key'), (37, 'col:primary_key'), (38, 'col:autoincrement'), (39, 'col:onupdate'), (40, 'col:server_default')]
 # protocols that may be passed as prot= / protocol= / p=: user-defined ProtocolBase subclasses that declare
 # type_attrs (defaults merged into every derivation made with them); index -> declared type_attrs
 PROT_DECL = [[('min_occurs', 1)], [('sub_name', 'viaprot'), ('nillable', False)], []]
@@ -214,7 +218,11 @@ def own_fields(ns, cls):
 def attrs_of(cls):
     out = []
     for k, name in OBS:
-        v = getattr(cls.Attributes, name, _MISSING)
+        if name.startswith('col:'):
+            sca = getattr(cls.Attributes, 'sqla_column_args', None)
+            v = _MISSING if sca is None else sca[-1].get(name[4:], _MISSING)
+        else:
+            v = getattr(cls.Attributes, name, _MISSING)
         if v is _MISSING:
             continue
         out.append((k, to_aval(v)))
@@ -283,6 +291,12 @@ def all_attrs(cls):
         if callable(v) and not isinstance(v, type):
             v = 'callable:' + getattr(v, '__name__', type(v).__name__)
         out.append((name, canon(v)))
+    # the (args, kwargs) pair sqlalchemy.Column is called with, entry by entry
+    sca = getattr(A, 'sqla_column_args', None)
+    if sca is not None:
+        out.append(('colargs', canon(len(sca[0]))))
+        for k in sorted(sca[-1]):
+            out.append(('col:' + k, canon(sca[-1][k])))
     return out
 
 def deep(ns, cls, depth=DEPTH):
@@ -457,6 +471,11 @@ def requested(ns, cls, kw, style=None):
             continue
         if k in ('prot', 'protocol', 'p'):
             req['prot'] = v
+        elif k in ('pk', 'primary_key'):
+            req['primary_key'] = v
+            req['col:primary_key'] = v
+        elif k in ('autoincrement', 'onupdate', 'server_default'):
+            req['col:' + k] = v                      # column options only: not attributes of their own
         elif k == 'type_name':
             req['_explicit_type_name'] = True
         elif k in ('nillable', 'nullable'):
@@ -489,6 +508,7 @@ def fresh_failures(ns, old, old_attrs, new, kw, site, style=None):
     new_attrs = dict(all_attrs(new))
     old_attrs = dict(old_attrs)
     old_attrs['_explicit_type_name'] = canon(False)
+    old_attrs.setdefault('colargs', canon(0))        # a derivative always has its own (args, kwargs) pair
     for name in sorted(set(new_attrs) | set(old_attrs) | set(req)):
         if name in ('translations', 'sqla_column_args'):
             continue     # bookkeeping containers that customize() re-creates empty
@@ -760,6 +780,7 @@ class World(object):
             # expected attributes: the requests applied in order over the original field type's
             exp = dict(all_attrs(o))
             exp['_explicit_type_name'] = canon(False)
+            exp.setdefault('colargs', canon(0))
             for kwl in kws:
                 exp['_explicit_type_name'] = canon(False)
                 for a, b in requested(ns, o, kwl).items():
@@ -811,7 +832,11 @@ def gen_kw(rng, ns, cls, small=False):
               ('read_only', lambda: rng.random() < 0.5), ('exc_table', lambda: rng.random() < 0.5),
               ('exc_interface', lambda: rng.random() < 0.3), ('type_name', lambda: rng.choice(['tnA', 'tnB'])),
               ('_foo', lambda: 7), ('_variants', lambda: None), ('wsdl_part_name', lambda: 'part'),
-              ('empty_is_none', lambda: rng.random() < 0.5), ('sub_ns', lambda: rng.choice(['urn:s1', 'urn:s2']))]
+              ('empty_is_none', lambda: rng.random() < 0.5), ('sub_ns', lambda: rng.choice(['urn:s1', 'urn:s2'])),
+              # column-level keywords: written into the keyword dictionary of Attributes.sqla_column_args
+              ('pk', lambda: rng.random() < 0.7), ('primary_key', lambda: rng.random() < 0.7),
+              ('autoincrement', lambda: rng.random() < 0.5), ('onupdate', lambda: rng.choice(['now', 'CASCADE'])),
+              ('server_default', lambda: rng.choice(['anonymous', '0']))]
     spec = []
     if k == '(KSimple FDecimal)':
         spec = [('ge', lambda: rng.choice([-5, 0, 1, 5, {'ninf': 1}])), ('gt', lambda: rng.choice([-1, 0, 3, {'ninf': 1}])),
@@ -971,6 +996,29 @@ def corpus():
          ['cust', U, [['prot', {'prot': 2}], ['min_len', 1]], None, None, None, 'call'],
          ['sub', 0, 'F', [['code', NBASE], ['note', NBASE + 1], ['n', NBASE + 2]]],
          ['cust', NBASE + 5, [['protocol', {'prot': 1}], ['prot', {'prot': 0}]], None, None, None, 'customize']],
+        # pending child attributes (for fields that do not exist yet): a variant of a variant has its own copy,
+        # and on a field added later the per-field entry is applied after child_attrs_all
+        [['sub', 0, 'K', [['a', I]]],
+         ['cust', NBASE, [], [['z', [['min_occurs', 1]]]], None, None, 'customize'],
+         ['cust', NBASE + 1, [], [['y', [['max_occurs', 3]]]], None, None, 'customize'],
+         ['cust', NBASE + 1, [['min_occurs', 1]], None, None, None, 'customize'],
+         ['app', NBASE, 'y', I], ['app', NBASE, 'z', U], ['ins', NBASE, 0, 'w', I]],
+        [['sub', 0, 'K', [['a', I]]],
+         ['cust', NBASE, [], [['z', [['min_occurs', 0], ['nillable', True]]], ['w', [['max_occurs', 2]]]], [['min_occurs', 1], ['max_occurs', 5], ['nillable', False]], None, 'customize'],
+         ['cust', NBASE + 1, [], [['y', [['min_occurs', 2]]]], None, None, 'customize'],
+         ['app', NBASE, 'z', I], ['ins', NBASE, 0, 'w', U], ['app', NBASE, 'y', I], ['ins', NBASE, 1, 'v', U]],
+        # column-level keywords (pk / autoincrement / onupdate / server_default) on a derivative of an already
+        # customized type: the original, its other derivatives and the models using them keep their column options
+        [['cust', 6, [['ge', 0]], None, None, None, 'call'], ['cust', U, [['max_len', 64]], None, None, None, 'call'],
+         ['cust', NBASE, [['le', 1000]], None, None, None, 'call'],
+         ['sub', 0, 'Row', [['n', NBASE], ['name', NBASE + 1], ['m', NBASE + 2]]],
+         ['cust', NBASE, [['pk', True]], None, None, None, 'call'],
+         ['cust', NBASE + 1, [['server_default', 'anonymous']], None, None, None, 'customize'],
+         ['cust', NBASE, [['autoincrement', False], ['onupdate', 'now']], None, None, None, 'index'],
+         ['cust', NBASE + 4, [['primary_key', False], ['server_default', '0']], None, None, None, 'call'],
+         ['cust', NBASE + 3, [['pk', True]], [['n', [['pk', True]]]], None, None, 'customize'],
+         ['cust', NBASE + 8, [['onupdate', 'CASCADE']], None, [['autoincrement', True]], None, 'customize'],
+         ['mand', NBASE + 4], ['array', 1, NBASE + 4, [['pk', True]]]],
         # the call syntax on an already derived ByteArray keeps its encoding (and type name)
         [['cust', 8, [['encoding', 'hex']], None, None, None, 'call'], ['cust', NBASE, [['min_occurs', 1]], None, None, None, 'call'],
          ['cust', NBASE, [['sub_name', 'sum']], None, None, None, 'call'], ['cust', NBASE, [['min_occurs', 1]], None, None, None, 'customize'],
